@@ -316,6 +316,9 @@ func stubsFor(hs []*Harness) map[string]string {
 		for k, v := range h.NativeStubs {
 			m[k] = v
 		}
+		for k, v := range h.ValueStubs {
+			m["value:"+k] = v
+		}
 	}
 	return m
 }
